@@ -537,7 +537,8 @@ Proof.
   assert (U : unpack_value (TStruct (pack lf2) [], VStruct filled) = seg).
   { unfold unpack_value. rewrite unpack_pack. reflexivity. }
   rewrite U.
-  pose proof (flatten_stage_rev _ E (fun m sx sv => reverse n E [m] sx sv) tag te _ _ _ X2 I1 [] seg N2 N3 Hn) as R.
+  pose proof (flatten_stage_rev _ E (fun m sx sv => reverse n E [m] sx sv) tag te _ _ _ X2 I1 [] seg N2
+                (conv_of_exact seg lf2 (flat_layer_nilable _ tag te _ _ _ X2 I1) N3) Hn) as R.
   simpl app in R. simpl length in R. rewrite R. cbn [obind].
   fold env.
   assert (B : Forall (bound env) (map enc0 (anames_fields tags [] (pack (unpack fs))))).
